@@ -10,7 +10,6 @@ import (
 	"verifsim/harness"
 
 	"github.com/MixinNetwork/mixin/common"
-	"github.com/MixinNetwork/mixin/config"
 	"github.com/MixinNetwork/mixin/crypto"
 )
 
@@ -138,14 +137,6 @@ func (m *memRig) otherMember(not crypto.Hash) crypto.Hash {
 func c29Variants(m *memRig, kind string) {
 	c := m.c
 	switch kind {
-	case "mint":
-		m.jumpTo(config.KernelMintTimeBegin+m.rng.IntN(3), 0)
-		ts := m.now()
-		ref := m.ref()
-		if tx := ref.Node.SimBuildMint(ts); tx != nil {
-			elected := ref.Node.SimElect(common.TransactionTypeMint, ts)
-			refused(m, "C29", "mint-by-non-elected-node", m.placeOn(m.otherMember(elected), tx, false), "a mint proposed by a node that is not the elected operator")
-		}
 	case "pledge":
 		id := m.fresh()
 		if id == nil || m.pledging() != nil {
@@ -198,54 +189,57 @@ func c29Variants(m *memRig, kind string) {
 	}
 }
 
-// c28OlderMint injects the day's universal mint stamped in the mint window
-// of the day of the last consensus operation, i.e. earlier than that
-// operation, while referencing it correctly. Everything else about it is
-// valid: window, elected proposer, amount, reference, round structure.
-func c28OlderMint(m *memRig) {
-	ref := m.ref()
-	last := ref.Node.SimLastConsensusSnapshot()
-	if last == nil || len(m.records) == 0 {
+// c28OlderPledge finalizes a valid custodian update and then injects a
+// pledge that references it correctly and is valid in every other respect
+// (window, elected proposer, amount, funding, round structure) but is stamped
+// shortly before (or exactly at) the update's timestamp.
+func c28OlderPledge(m *memRig) {
+	id := m.fresh()
+	if id == nil || m.pledging() != nil {
 		return
 	}
-	epoch := uint64(m.c.Epoch.UnixNano())
-	day := m.dayOf(last.Timestamp)
-	hour := (last.Timestamp - epoch) / uint64(time.Hour) % 24
-	if hour <= config.KernelMintTimeEnd || day <= m.mintDay {
+	hours := []int{0, 1, 2, 3, 4, 11, 20, 21, 22}
+	m.jumpTo(hours[m.rng.IntN(len(hours))], 12*time.Hour+time.Minute-time.Duration(m.now()-m.lastChange()))
+	coin := m.xinCoin()
+	if coin == nil {
 		return
 	}
-	for _, back := range []uint64{0, 1} {
-		if day-back <= m.mintDay {
-			continue
-		}
-		ts := epoch + (day-back)*uint64(24*time.Hour) + uint64(config.KernelMintTimeBegin)*uint64(time.Hour) + uint64(m.rng.Int64N(int64(3*time.Hour)))
-		tx := ref.Node.SimBuildMint(ts)
-		if tx == nil {
-			m.r.out.Probes["variant_not_buildable:mint-before-last-operation"]++
-			return
-		}
-		elected := ref.Node.SimElect(common.TransactionTypeMint, ts)
+	before := m.now()
+	m.c.Run(m.c.Q.Now + 2*time.Second)
+	if !m.custodianNow() {
+		m.r.out.Probes["variant_not_buildable:timestamp-not-after-last-operation"]++
+		return
+	}
+	m.r.out.Probes["op_mem.custodian"]++
+	last := m.ref().Node.SimLastConsensusSnapshot()
+	for _, ts := range []uint64{before + 1 + uint64(m.rng.Int64N(int64(time.Second))), last.Timestamp} {
+		elected := m.ref().Node.SimElect(common.TransactionTypeNodePledge, ts)
 		ch := m.inj.chainFor(elected)
 		if ch == nil || ch.lastTime >= ts {
-			m.r.out.Probes["variant_not_buildable:mint-before-last-operation"]++
+			m.r.out.Probes["variant_not_buildable:timestamp-not-after-last-operation"]++
 			continue
 		}
-		refused(m, "C28", "timestamp-not-after-last-operation", m.multi(elected, []*common.VersionedTransaction{tx}, ts), "a mint stamped before the last consensus operation it references")
-		return
+		tx := m.buildPledge(id, coin, m.lastConsensusTx())
+		refused(m, "C28", "timestamp-not-after-last-operation", m.multi(elected, []*common.VersionedTransaction{tx}, ts), "a pledge stamped at or before the consensus operation it references")
+		if m.c.Halt {
+			return
+		}
 	}
 }
 
 func c28Variants(m *memRig, kind string) {
 	c := m.c
-	c28OlderMint(m)
-	if c.Halt {
-		return
-	}
 	switch kind {
 	case "pledge":
 		id := m.fresh()
 		if id == nil || m.pledging() != nil {
 			return
+		}
+		if m.rng.Chance(0.5) {
+			c28OlderPledge(m)
+			if c.Halt {
+				return
+			}
 		}
 		m.jumpTo([]int{0, 2, 4, 10, 11, 21}[m.rng.IntN(6)], 12*time.Hour+time.Minute-time.Duration(m.now()-m.lastChange()))
 		coin := m.xinCoin()
@@ -430,7 +424,7 @@ func init() {
 		Gen:        memGen("C29"),
 		Exec:       c29Exec,
 		QuickRuns:  64, ThoroughRuns: 2000,
-		QuickWall: 45 * time.Second, ThoroughWall: 12 * time.Minute,
+		QuickWall: 30 * time.Second, ThoroughWall: 12 * time.Minute,
 	})
 	harness.Register(&harness.Property{
 		ID:    "C28",
@@ -442,6 +436,6 @@ func init() {
 		Gen:        memGen("C28"),
 		Exec:       c28Exec,
 		QuickRuns:  64, ThoroughRuns: 2000,
-		QuickWall: 45 * time.Second, ThoroughWall: 12 * time.Minute,
+		QuickWall: 30 * time.Second, ThoroughWall: 12 * time.Minute,
 	})
 }
